@@ -246,6 +246,24 @@ def rules(ctx, tier):
         verify_switch(ctx, r, sb)
     r.need(1, "verification switch of the scan")
     out.append(r.finish())
+
+    r = Rule("R9", "the scan looks at the entries of cas/ the way every other access does - through the path, following "
+                   "links: what kind of thing an entry is, is never taken from the directory entry itself "
+                   "(`DirEntry::file_type` / `DirEntry::metadata` / `symlink_metadata` do not follow symbolic links)",
+             "a shard directory relocated behind a symlink works for every put and get, but the scan takes it for an "
+             "invalid file, reports the blobs under it as missing - and the clean-up unlinks the link")
+    NOFOLLOW = ("std::fs::DirEntry::file_type", "std::fs::DirEntry::metadata", "std::fs::symlink_metadata")
+    n = 0
+    for e in ctx.fx.of_kind("FS_STAT"):
+        if not any(c in ("DIRSCAN:CAS_ROOT", "DIRSCAN:CAS_DIR", "CAS_DIR", "CAS_BLOB", "CAS_ROOT") for c in e.classes):
+            continue
+        n += 1
+        r.check((e.site.path or "") not in NOFOLLOW, "stat:%s" % site_construct(e.site), e.site.body,
+                "%s at %s follows links" % (e.site.path, site_where(e.site)),
+                "%s at %s classifies an entry of cas/ without following symbolic links" % (e.site.path, site_where(e.site)),
+                site_where(e.site))
+    r.need(3, "stat calls on entries of cas/")
+    out.append(r.finish())
     return out
 
 
@@ -513,6 +531,8 @@ def hash_list_origins(ctx, r, sb, agg, report):
         for p in pushes:
             kinds = set()
             for x in sl.leaves_of_operand(p.term["args"][1]):
+                if x[0] == "agg" and str(x[1]).endswith("Option::None"):
+                    continue        # the `None` arm of a combinator: no value is pushed from it
                 if x[0] != "call":
                     kinds.add("other:" + fmt_leaf(x))
                     continue
